@@ -356,6 +356,10 @@ def impl_violations(line, impl):
                         bad.append(where + "a failed push changed the body (descriptor list / indices / UNIX_FDS)")
                     if opn != popn:
                         bad.append(where + "a failed push changed the descriptor table: before %s after %s" % (sorted(popn), sorted(opn)))
+        if kind == "R" and res == "ok":
+            nb = s["bods"][int(op[1:])]
+            if nb["fds"] or nb["idx"] or nb["hdr"] > 0:
+                bad.append(where + "reset left %d descriptors attached to the body (UNIX_FDS %d, indices %s)" % (len(nb["fds"]), nb["hdr"], nb["idx"]))
         if kind in "RD" and res == "ok":
             b = int(op[1:])
             pb = prev["bods"][b]
